@@ -153,20 +153,20 @@ META = {
     "C02": {
         "engine": "E2-brokermc",
         "technique": "explicit enumeration of publish-event sequences x message-log states on the complete in-process broker under virtual time (synctest), run to quiescence after every event",
-        "text": "Every publish sequence (2 publishers x QoS 0/1/2) up to depth 2-3 (quick) / 3-4 (thorough) from an empty log and from logs pre-filled to 19 lengths around batch (10), segment (500) and truncation (1500/1000) boundaries, with and without a restarted consumer; payload sizes at the encoder's length edges; plus a boundary sweep over P in 1..2600. Every publish whose PUBACK/PUBCOMP the publisher read must appear, topic and payload intact, at each of three connected subscribers (QoS 0/1/2) within 30 s of virtual time.",
-        "note": "One node (remote delivery is C14); subscribers acknowledge promptly; real commit log on /dev/shm; run-to-completion between events.",
+        "text": "(plus a stalled-subscriber phase: a subscriber that stops reading while 400-1300 further messages are published across segment and truncation boundaries, then reads again, must still get every acknowledged publish) Every publish sequence (2 publishers x QoS 0/1/2) up to depth 2-3 (quick) / 3-4 (thorough) from an empty log and from logs pre-filled to 19 lengths around batch (10), segment (500) and truncation (1500/1000) boundaries, with and without a restarted consumer; payload sizes at the encoder's length edges; plus a boundary sweep over P in 1..2600. Every publish whose PUBACK/PUBCOMP the publisher read must appear, topic and payload intact, at each of three connected subscribers (QoS 0/1/2) within 30 s of virtual time.",
+        "note": "One node (remote delivery is C14); subscribers acknowledge promptly; real commit log on /dev/shm; run-to-completion between events; the stalled subscriber uses QoS 0 (net.Pipe serialises concurrent writers with a mutex that synctest cannot see through).",
     },
     "C01": {
         "engine": "E1-seqx + E2-brokermc",
         "technique": "exhaustive (filter, topic) enumeration and bounded subscription histories on the real trie / replicated state vs an MQTT 4.7 reference; explicit event exploration of the in-process broker for bytes on the wire",
-        "text": "All 318k (filter, topic) pairs of up to 4 levels over {a,b,c,+,#,empty} on the real trie; every ordered pair (thorough: triple) of 53 filters with remove/re-insert for independence; every Create/Delete/DeleteSession history of depth 4 (quick) / 5 (thorough) over 2 sessions x 4 filters with ByPattern compared on 14 topics after each step and a differential equal-active-set oracle; plus PUBLISH packets observed at client pipe ends of the in-process broker.",
+        "text": "All 318k (filter, topic) pairs of up to 4 levels over {a,b,c,+,#,empty} on the real trie; every ordered pair (thorough: triple) of 53 filters with remove/re-insert for independence; every Create/Delete/DeleteSession history of depth 4 (quick) / 5 (thorough) over 2 sessions x 4 filters with ByPattern compared on 14 topics after each step and a differential equal-active-set oracle; replication echoes (own full state merged back, last broadcast redelivered) inside the histories; plus a wire phase on 1 and 2 nodes: a session holding one or an ordered pair of 10 representative filters, or reaching its set through subscribe/unsubscribe/re-subscribe histories, must read exactly one PUBLISH per matching active subscription for each of 5 topics, verbatim, while another session gets only its own.",
         "note": "$-topics and invalid filters are outside the alphabet; the known empty-level finding is matched by recomputing the truncation the defect performs.",
     },
     "C07": {
         "engine": "E1-seqx + E2-brokermc",
         "technique": "exhaustive bounded Set/Delete histories on the real retained-message state (origin + replica) vs a map reference; explicit event exploration on the in-process broker for the wire half",
         "text": "Every retained Set/Delete sequence of length 1..4 (quick) / 1..5 (thorough) over 5 prefix-sharing topics and 2 payloads on node A with node B fed by A's broadcasts; after each sequence Get(f) for 176 filters (<=3 levels over {a,b,c,+}, trailing #, plus root-level wildcards) on both nodes equals the last non-empty payload per matching topic.",
-        "note": "Wire-level replay (retain flag, exactly once per topic, right after SUBACK) is checked by the E2 phase.",
+        "note": "The E1 phase also feeds further replicas with the same broadcasts in every other order (<=3 updates) or reversed. The E2 wire phase enumerates publish(topic, retain, payload incl. empty) / subscribe(one or several filters in one packet) sequences on 1-2 nodes: the late subscriber must read SUBACK followed by exactly one retain-flagged PUBLISH per subscription and matching topic with a non-empty last retained payload; live copies carry no retain flag.",
     },
     "C08": {
         "engine": "E1-seqx",
@@ -190,7 +190,7 @@ META = {
         "engine": "E1-seqx + E2-brokermc",
         "technique": "exhaustive enumeration of credential tables x candidates on the real handlers vs a map model; explicit event exploration of refused/accepted CONNECTs on the in-process broker",
         "text": "Every credential table over 6 users (all subsets; every 2-field / 3-field / empty-mount-point shape per entry; every file order up to 3 (quick) / 4 (thorough) entries, rotations and reversals beyond) is loaded by the real FileHandler and probed with exact, wrong-password, other-entry-password, swapped, empty and absent candidates; the static handler is probed over a 5x5x5x5 value grid. Accepted iff the pair is in the table, with that entry's mount point.",
-        "note": "The file stores the password fingerprint (sha256 hex) in field 2, as the record type PasswordHash says; duplicate user names are not generated.",
+        "note": "The file stores the password fingerprint (sha256 hex) in field 2, as the record type PasswordHash says; duplicate user names are not generated. The E2 wire phase puts both real stores behind a real CONNECT: a refused candidate gets a refusal CONNACK and leaves no session, subscription, retained message or will on any node even if it goes on to SUBSCRIBE / PUBLISH retained / drop with a will; an accepted one is listed in its entry's mount point and isolated accordingly.",
     },
     "C04": {
         "engine": "E1-seqx + E4-schedx",
@@ -201,7 +201,7 @@ META = {
     "C06": {
         "engine": "E1-seqx",
         "technique": "explicit-state BFS to fixpoint over the real allocator vs a set model, plus bounded sequences at the production-range edges",
-        "text": "All reachable allocator states for several small ranges (BFS to fixpoint; state = every allocator field + reference outstanding set) under Get/Put of every in-range, boundary and out-of-range value, with a full drain in every state; on the production range 0..65535 every Get/Put sequence of depth 3 (quick) / 4 (thorough) from the states fresh, 65534, 65535 and all identifiers outstanding.",
+        "text": "All reachable allocator states for several small ranges (BFS to fixpoint; state = every allocator field + reference outstanding set) under Get/Put of every in-range, boundary and out-of-range value, with a full drain in every state; on the production range 0..65535 every Get/Put sequence of depth 3 (quick) / 4 (thorough) from the states fresh, 65534, 65535 and all identifiers outstanding; the concurrent clause by E4 schedules on the pool; the writer-side clause (identifiers of outbound messages distinct while in flight and released after completion, wrong-type acknowledgements, expiry and session end) by the C03 client-script exploration with a 3-identifier pool.",
         "note": "The allocator is assumed to behave uniformly in the numeric values between the chosen small ranges and the production range edges; concurrent use is covered by C20.",
     },
     "C19": {
